@@ -525,6 +525,45 @@ def main(ctx):
     ctx.cov["systematic"] = exh
     ctx.cov["exhaustive"] = all(v["exhausted"] for v in exh.values())
     vlib.conc_correspondence(ctx, hcmd, dcmd, sys_runs, judge=judge, label="tieC_systematic")
+    if (ctx.broken and not any(f for _, f in ctx.violations)) or not ctx.quick:
+        exhaustion_search(ctx, hcmd, tsk)
+
+
+# workloads that keep a capacity-4 pool at the edge of exhaustion while two or three threads free
+# concurrently with an allocator, after an out-of-order free has permuted the slot ring: the states in
+# which a slot published before its pointer is stored (or a stale cursor) hands out an owned block
+EDGE_PROGS = [["pppaa", "t", "t"], ["pppfaa", "tt", "t"], ["aafpppaa", "t", "tt"], ["ppgppaa", "t", "t", "t"],
+              ["ppp", "tta", "ta"], ["apfppaa", "tt", "t"], ["aagpppaaa", "tt", "tt"], ["pgpppa", "ta", "ta", "t"]]
+
+
+def exhaustion_search(ctx, hcmd, tsk):
+    """SEARCH (DESIGN §2.6), run when an obligation / tie is broken without a concrete failing input
+    (and in the thorough tier): many PCT / random schedules of the real code on the edge-of-exhaustion
+    workloads, judged by the ownership oracle only (no model replay)."""
+    rng = ctx.rng
+    per = 4000 if ctx.quick else 8000
+    runs = []
+    for progs in EDGE_PROGS:
+        for cap in (4,):
+            for i in range(per):
+                s = rng.randrange(1, 1 << 30)
+                sched = "pct %d %d" % (s, rng.choice([2, 3, 4])) if i % 2 else "random %d" % s
+                runs.append(mkrun(tsk, cap, 0, progs, sched, tag="edge-of-exhaustion"))
+    res = vlib.run_cases(hcmd, [r["conf"] + ["sched " + r["sched"], "run"] for r in runs])
+    nbad = 0
+    for r, a in zip(runs, res):
+        msg = ("crash: " + a["crash"][:800]) if a["crash"] else judge(r, a["out"])
+        if msg:
+            nbad += 1
+            if nbad <= 2:
+                sched = next((l[len("schedule "):] for l in a["out"] if l.startswith("schedule ")), "")
+                ctx.violation({"kind": "property-fails-on-implementation", "tie": "edge-of-exhaustion-search",
+                               "conf": r["conf"], "schedule": sched, "what": msg,
+                               "ops": r["conf"] + ["sched replay " + sched, "run"],
+                               "implementation_trace": a["out"], "broken_obligations": ctx.broken},
+                              found_input=True)
+    ctx.cov["ties"]["edge_of_exhaustion_search"] = {"runs": len(runs), "property_failures": nbad}
+    ctx.cov["evaluations"] += len(runs)
 
 
 def replay(ctx, path):
@@ -536,6 +575,14 @@ def replay(ctx, path):
         print("replay names a broken obligation only:", r.get("broken"))
         return 2
     a = vlib.run_one(hcmd, ops)
+    if not a["crash"] and any(l.startswith("end replay-diverged") for l in a["out"]):
+        # the recorded schedule does not fit this tree (other threads are enabled): follow it as far as
+        # it applies, then continue non-preemptively
+        ops = [("sched prefix " + l[len("sched replay "):]) if l.startswith("sched replay ") else l for l in ops]
+        a = vlib.run_one(hcmd, ops)
+        sched = next((l[len("schedule "):] for l in a["out"] if l.startswith("schedule ")), "")
+        ops = [("sched replay " + sched) if l.startswith("sched prefix ") else l for l in ops]
+        a = vlib.run_one(hcmd, ops)
     b = vlib.run_one(dcmd, ops)
     print("\n".join(a["out"]))
     if a["crash"]:
